@@ -114,6 +114,13 @@ class ClassInfo:
                 return True
         return False
 
+    def method(self, name: str) -> ast.FunctionDef:
+        """The function that ``self.name`` resolves to (own or inherited from a class of the repository)."""
+        r = self.find_method(name)
+        if r is None:
+            raise AnalysisError(f"{self.qualname} has no method {name} (anchor vanished)")
+        return r[1]
+
     def find_method(self, name: str) -> Optional[Tuple["ClassInfo", ast.FunctionDef]]:
         for c in self.mro():
             if name in c.methods:
